@@ -374,6 +374,65 @@ func (w *accWalker) recordGlobal(c *fctx, s *astate, id *ast.Ident, write bool) 
 	}
 }
 
+// fieldAlias: for an expression that is a slice- or map-typed field of a tracked object (or a slice of
+// it), "alias:<location>#<object>": a local variable bound to it refers to the same memory.
+func (w *accWalker) fieldAlias(c *fctx, s *astate, e ast.Expr) string {
+	for {
+		switch x := e.(type) {
+		case *ast.SliceExpr:
+			e = x.X
+			continue
+		case *ast.ParenExpr:
+			e = x.X
+			continue
+		}
+		break
+	}
+	if id, ok := e.(*ast.Ident); ok {
+		if p := s.prov[c.lkey(id.Name)]; strings.HasPrefix(p, "alias:") {
+			return p
+		}
+		return ""
+	}
+	sel, ok := e.(*ast.SelectorExpr)
+	if !ok {
+		return ""
+	}
+	info := c.pkg.TypesInfo
+	if selection := info.Selections[sel]; selection == nil || selection.Kind() != types.FieldVal {
+		return ""
+	}
+	owner := trackedName(info.TypeOf(sel.X))
+	t := info.TypeOf(sel)
+	if owner == "" || t == nil {
+		return ""
+	}
+	switch t.Underlying().(type) {
+	case *types.Slice, *types.Map:
+	default:
+		return ""
+	}
+	inst, ok := instCode(owner, w.prov(c, s, sel.X))
+	if !ok {
+		return ""
+	}
+	return fmt.Sprintf("alias:%s.%s#%d", owner, sel.Sel.Name, inst)
+}
+
+func (w *accWalker) recordAlias(s *astate, alias string, write bool, at token.Pos) {
+	body := strings.TrimPrefix(alias, "alias:")
+	i := strings.LastIndex(body, "#")
+	if i < 0 {
+		return
+	}
+	inst := int(body[i+1] - '0')
+	r := accRec{loc: body[:i], inst: inst, write: write, held: heldFor(s.held, ""), where: w.pos(at) + " " + w.entry + " (through a local alias)"}
+	k := r.key()
+	if _, dup := w.acc[k]; !dup {
+		w.acc[k] = r
+	}
+}
+
 // heldFor: the locks held, as they count for an access to the shard named key ("" = not a shard): the
 // lock of that very shard is "the shard's own lock", the lock of any other shard protects nothing here.
 func heldFor(held []alock, key string) []alock {
@@ -473,7 +532,12 @@ func (w *accWalker) expr(c *fctx, e ast.Expr, ss []astate, write bool) []astate 
 	case nil:
 		return ss
 	case *ast.Ident:
-		return w.each(ss, func(s *astate) { w.recordGlobal(c, s, x, write) })
+		return w.each(ss, func(s *astate) {
+			w.recordGlobal(c, s, x, write)
+			if p := s.prov[c.lkey(x.Name)]; strings.HasPrefix(p, "alias:") {
+				w.recordAlias(s, p, write, x.Pos())
+			}
+		})
 	case *ast.SelectorExpr:
 		if id, ok := x.X.(*ast.Ident); ok {
 			if _, isPkg := c.pkg.TypesInfo.Uses[id].(*types.PkgName); isPkg {
@@ -673,11 +737,27 @@ func (w *accWalker) call(c *fctx, call *ast.CallExpr, ss []astate) []astate {
 	}
 	for _, a := range call.Args {
 		wr := false
-		if sel, ok := a.(*ast.SelectorExpr); ok {
-			if t := info.TypeOf(sel); t != nil {
+		root := a
+		for {
+			if sl, ok := root.(*ast.SliceExpr); ok {
+				root = sl.X
+				continue
+			}
+			break
+		}
+		switch r := root.(type) {
+		case *ast.SelectorExpr:
+			if t := info.TypeOf(r); t != nil {
 				switch t.Underlying().(type) {
 				case *types.Slice, *types.Map:
 					wr = true // the callee may write into the buffer the field refers to
+				}
+			}
+		case *ast.Ident:
+			if t := info.TypeOf(r); t != nil {
+				switch t.Underlying().(type) {
+				case *types.Slice, *types.Map:
+					wr = true // a local alias of a field's buffer (recorded only if it is one)
 				}
 			}
 		}
@@ -924,6 +1004,11 @@ func (w *accWalker) assignEffects(c *fctx, lhs, rhs ast.Expr, ss []astate) {
 			continue
 		}
 		if id, ok := lhs.(*ast.Ident); ok && rhs != nil {
+			if al := w.fieldAlias(c, s, rhs); al != "" {
+				s.prov[c.lkey(id.Name)] = al
+				delete(s.known, c.lkey(id.Name))
+				continue
+			}
 			if p := w.prov(c, s, rhs); p != "" {
 				s.prov[c.lkey(id.Name)] = p
 			} else {
